@@ -394,21 +394,34 @@ class ExecutionState:
                 SUCCEEDED, or if the checkpoint doesn't exist, then return
                 CheckpointedResult with is_succeeded=False,result=None.
         """
-        # An operation whose parent context has completed must not make progress: stop the
-        # orphaned branch here, at its next durable operation, rather than only at the next
-        # checkpoint - an existing operation (e.g. a child context or a step found STARTED)
-        # runs its user function without creating a checkpoint first.
-        with self._parent_done_lock:
-            if checkpoint_id in self._parent_done:
-                msg = "Parent context completed, child operation cannot continue"
-                raise OrphanedChildException(msg, operation_id=checkpoint_id)
-
         # checking status are deliberately under a lighter non-serialized lock
         with self._operations_lock:
             if checkpoint := self.operations.get(checkpoint_id):
                 return CheckpointedResult.create_from_operation(checkpoint)
 
         return CHECKPOINT_NOT_FOUND
+
+    def raise_if_orphaned(self, operation_id: str) -> None:
+        """Stop an orphaned branch before it runs the user function of an existing operation.
+
+        An operation that already exists when an orphaned map/parallel branch reaches it (a child
+        context or step found STARTED, a resubmitted branch) creates no checkpoint before its user
+        function runs, so the orphan check in create_checkpoint comes too late for it. Operations
+        that have completed are exempt: a context recorded with ReplayChildren legitimately runs
+        its body again over its completed children, also later in the invocation that completed it.
+
+        Raises:
+            OrphanedChildException: if the operation's parent context has completed and the
+                operation itself has not.
+        """
+        with self._parent_done_lock:
+            if operation_id not in self._parent_done:
+                return
+        with self._operations_lock:
+            operation = self.operations.get(operation_id)
+        if operation is None or operation.status not in self._TERMINAL_STATUSES:
+            msg = "Parent context completed, child operation cannot continue"
+            raise OrphanedChildException(msg, operation_id=operation_id)
 
     def create_checkpoint(
         self,
